@@ -27,6 +27,10 @@ RULE = (
     "requested in two requests; first-repetition non-advance => FaultySNMPImplementation "
     "(warn: normal end with everything received before). Distinct = distinct observed "
     "(operation, request/response trace); non-trivial = >=2 requests or a faulty answer."
+    " Further named families: two roots with endOfMibView in the column listed first while th"
+    "e other column stalls; sub-identifiers beyond 32 bits (2^32, 2^32+4, 2^63, 2^64+1, 2^70)"
+    " that go back to an arc which is larger modulo 2^32; the lenient mode is passed as a str"
+    "ing equal to, not identical with, the constant."
 )
 ASSUMPTIONS = [
     "every requested column is answered (truncation belongs to C02)",
